@@ -73,9 +73,11 @@ Prefix(contr) == CASE contr \in {"treatment", "sas"} -> "T." [] contr = "sum" ->
 \* one encoded column: [name, vals] with vals over the kept rows
 Col(name, vals) == [name |-> name, vals |-> vals]
 
+\* a stateful numeric transform with a recorded shift (center): the recorded statistic is part of the factor
+ShiftOf(f) == IF "shift" \in DOMAIN f THEN f.shift ELSE 0
 EncodeNum(frame, f, kept) ==
   LET c == frame.cols[f.col] IN
-  << Col(f.e, [i \in DOMAIN kept |-> IF kept[i] \in c.nulls THEN NAN ELSE c.num[kept[i]]]) >>
+  << Col(f.e, [i \in DOMAIN kept |-> IF kept[i] \in c.nulls THEN NAN ELSE c.num[kept[i]] - ShiftOf(f)]) >>
 
 \* a null (or unseen) value is the all-zero row of the indicator matrix
 EncodeCat(frame, f, kept, reduced, rec) ==
